@@ -434,7 +434,75 @@ func runC20(c *core.Ctx, o Options) {
 	c.Extra["captured_cells"] = nCap
 	c.Extra["functions"] = len(fns)
 	c.Extra["guarded_accesses"] = nAcc
-	c.RuleMin = map[string]int{"atomic": 7, "complete": 6, "fresh-message": 3, "lockset": 31, "message-lock": 3}
+	// copylock: a mutex protects only if every party locks the same one. No struct that holds a sync.Mutex/RWMutex (or Once,
+	// WaitGroup) by value is copied: no value receiver, parameter or result of such a type, and no load of a whole such struct
+	{
+		var holds func(t types.Type, depth int) string
+		holds = func(t types.Type, depth int) string {
+			if depth > 6 {
+				return ""
+			}
+			if n, ok := t.(*types.Named); ok {
+				if o := n.Obj(); o.Pkg() != nil && o.Pkg().Path() == "sync" {
+					switch o.Name() {
+					case "Mutex", "RWMutex", "Once", "WaitGroup", "Cond", "Map", "Pool":
+						return "sync." + o.Name()
+					}
+				}
+			}
+			switch u := t.Underlying().(type) {
+			case *types.Struct:
+				for i := 0; i < u.NumFields(); i++ {
+					if h := holds(u.Field(i).Type(), depth+1); h != "" {
+						return h
+					}
+				}
+			case *types.Array:
+				return holds(u.Elem(), depth+1)
+			}
+			return ""
+		}
+		nTypes := 0
+		seenT := map[string]bool{}
+		for _, fn := range fns {
+			sig := fn.Signature
+			check := func(v *types.Var, what string) {
+				if v == nil {
+					return
+				}
+				if h := holds(v.Type(), 0); h != "" {
+					c.Ob("copylock", an.NameOf(fn), what+" of "+an.NameOf(fn)+" is passed by value", fn.Pos()).Fail("%s of %s has type %s, which holds a %s by value: each call works on a copy of the lock, so callers no longer exclude each other (and a copy of a locked mutex stays locked for ever)", what, an.NameOf(fn), v.Type().String(), h)
+				}
+			}
+			if fn.Synthetic == "" {
+				check(sig.Recv(), "the receiver")
+				for i := 0; i < sig.Params().Len(); i++ {
+					check(sig.Params().At(i), "a parameter")
+				}
+				for i := 0; i < sig.Results().Len(); i++ {
+					check(sig.Results().At(i), "a result")
+				}
+			}
+			an.AllInstrs(fn, func(in ssa.Instruction) {
+				if u, ok := in.(*ssa.UnOp); ok && u.Op == token.MUL {
+					if h := holds(u.Type(), 0); h != "" {
+						// loading a struct only to read one field of it (x := *p; x.f) does not occur in SSA form: a whole-struct
+						// load is a copy
+						c.Ob("copylock", an.NameOf(fn), "copy of "+an.Render(u.X), u.Pos()).Fail("a value of type %s (which holds a %s) is copied in %s", u.Type().String(), h, an.NameOf(fn))
+					}
+				}
+				if al, ok := in.(*ssa.Alloc); ok {
+					if h := holds(an.Deref(al.Type()), 0); h != "" && !seenT[an.Deref(al.Type()).String()] {
+						seenT[an.Deref(al.Type()).String()] = true
+						nTypes++
+					}
+				}
+			})
+		}
+		c.Check(nTypes >= 3, "copylock", "", "lock-holding types found", token.NoPos, fmt.Sprint(nTypes), fmt.Sprintf("only %d lock-holding struct types allocated in the library", nTypes))
+	}
+	c.Explanation += " copylock: no struct holding a sync.Mutex/RWMutex/Once/WaitGroup by value is copied — no value receiver, parameter or result of such a type and no whole-struct load."
+	c.RuleMin = map[string]int{"atomic": 7, "complete": 6, "fresh-message": 3, "lockset": 31, "message-lock": 3, "copylock": 1}
 	c.MinObl = 30
 }
 
